@@ -820,7 +820,7 @@ typedef gil::rgb16_image_t T0; typedef gil::gray32f_image_t T1; static const cha
 typedef gil::gray1_image_t T0; typedef gil::gray4_image_t T1; static const char* N0 = "gray1"; static const char* N1 = "gray4";
 #endif
 // the any_image offers both native types of this part and one foreign alternative
-typedef gil::any_image<T0, T1, gil::cmyk8_image_t> any_t;
+typedef gil::any_image<T0, T1, gil::rgb32f_image_t> any_t;   // (a foreign type that no file of this part matches)
 enum { K_T0 = 0, K_T1 = 1, K_NOSCAN = 100 };
 static void build_files() {
     add_tiff_type<T0>(N0, K_T0, K_T0 + K_NOSCAN, 1000);
